@@ -8,7 +8,7 @@ entry and exit points, completion rows (acyclic by construction).  spec.normaliz
 import random
 import zlib
 
-PROFILES = ("struct", "hist", "pseudo", "compl", "evh", "dfb", "dfm", "ser")
+PROFILES = ("struct", "hist", "pseudo", "compl", "evh", "dfb", "dfm", "ser", "sto")
 
 
 def rand_spec(profile, seed):
@@ -81,7 +81,7 @@ def rand_spec(profile, seed):
 
     for mi in range(len(shape)):
         nreg = rnd.choice([1, 1, 2, 2, 3]) if shape[mi] < 2 else rnd.choice([1, 1, 2])
-        if profile == "dfb" and mi == 0:
+        if profile in ("dfb", "sto") and mi == 0:
             nreg = 1            # back: no sibling region may handle what a state defers (documented limitation)
         regions = [[sname() for _ in range(rnd.randint(2, 4))] for _ in range(nreg)]
         M = {"name": "M%d" % mi, "regions": regions, "kinds": {}, "rows": [], "state": {}}
@@ -191,11 +191,11 @@ def rand_spec(profile, seed):
                             M["rows"].append("%s%s%s -> %s" % (s, g, actions(), tgt))
         rnd.shuffle(M["rows"])
     # deferral as a state property
-    if profile in ("dfb", "dfm"):
+    if profile in ("dfb", "dfm", "sto"):
         dset = rnd.sample(trig[:nev], rnd.randint(1, 2))
         cond = [0]
         for mi, M in enumerate(machines):
-            if profile == "dfb" and mi != 0:
+            if profile in ("dfb", "sto") and mi != 0:
                 continue        # back: deferral declared in the machine that receives the event
             simple = [s_ for reg in M["regions"] for s_ in reg if not M["kinds"].get(s_)]
             subs = [s_ for reg in M["regions"] for s_ in reg if M["kinds"].get(s_, "").startswith("sub:")]
@@ -207,14 +207,14 @@ def rand_spec(profile, seed):
                     if profile == "dfm" and rnd.random() < 0.35 and cond[0] < 4:
                         M["state"][s_]["cond_defer"] = cond[0]
                         cond[0] += 1
-                    if profile == "dfb":
+                    if profile in ("dfb", "sto"):
                         # ... and not contradicted by a transition on the same event in the same state
                         M["rows"] = [r for r in M["rows"] if not any(r.startswith("%s + %s " % (s_, e)) or r == "%s + %s" % (s_, e) for e in evs)]
                         if s_ in M["state"] and "internal" in M["state"][s_]:
                             M["state"][s_]["internal"] = [r for r in M["state"][s_]["internal"] if r.split()[0] not in evs]
                             if not M["state"][s_]["internal"]:
                                 del M["state"][s_]["internal"]
-            if profile == "dfb" and M.get("internal"):
+            if profile in ("dfb", "sto") and M.get("internal"):
                 M["internal"] = [r for r in M["internal"] if r.split()[0] not in dset]
                 if not M["internal"]:
                     del M["internal"]
@@ -243,6 +243,10 @@ def rand_spec(profile, seed):
             M.pop("state")
         if not M["kinds"]:
             M.pop("kinds")
+    if profile == "sto":
+        # stored-event classes (size / alignment / copy-move traits, instance-counted): the deferred ones first
+        big = list(dict.fromkeys(dset + rnd.sample(trig[:nev], 2)))
+        events = [({"name": e, "size_class": rnd.randint(1, 6)} if e in big else e) for e in events]
     sp = {"name": name, "events": events, "machines": machines}
     if profile == "ser":
         sp["serialize"] = True
